@@ -788,7 +788,20 @@ func (w *c20World) lie(seed uint64) error {
 		mustFail bool
 		what     string
 	)
-	switch seed % 8 {
+	switch seed % 9 {
+	case 8: // the next block with an altered witness: its hash is the genuine one (the witness is not hashed)
+		i := w.n.BC.BlockHeight() + 1
+		if w.stage() == "blocks" {
+			i = w.srv.stateSync.BlockHeight() + 1
+		}
+		b := w.srcBlock(i)
+		if b == nil || len(b.Script.InvocationScript) == 0 {
+			return nil
+		}
+		nb := c20Clone(b, w.srih())
+		nb.Script.InvocationScript = bytes.Clone(nb.Script.InvocationScript)
+		nb.Script.InvocationScript[int(seed>>8)%len(nb.Script.InvocationScript)] ^= 1 << (seed >> 16 % 8)
+		msg, what = NewMessage(CMDBlock, nb), "genuine block with an altered witness"
 	case 0: // next header with an altered field
 		i := w.n.BC.HeaderHeight() + 1
 		b := w.srcBlock(i)
@@ -1013,6 +1026,16 @@ func (w *c20World) event(e c20Event) error {
 		w.disconnect()
 		return w.connect()
 	case "restart":
+		// Documented refusal (statesync.Module.Init): a node that already has blocks and stands two sync intervals or
+		// more behind the network does not start ("drop the database manually"). Not provoked.
+		if w.c.Chain.StateExchange && w.c.Node.RemoveUntraceable && w.stage() == "inactive" {
+			iv := uint32(w.c.Chain.StateSyncInterval)
+			p := w.b.N.BC.BlockHeight() / iv * iv
+			if bh := w.n.BC.BlockHeight(); p >= 2*iv && bh != 0 && bh <= p-2*iv {
+				w.o.Label("restart-skipped:too-far-behind-by-documentation")
+				return nil
+			}
+		}
 		w.stats.restarts++
 		st := w.stage()
 		w.o.Label("restart@" + st)
@@ -1200,6 +1223,20 @@ func c20CheckCase(c c20Case, o *vt.Obs) error {
 	}
 	if diff := ck.Diff(ck.FullDump(abc, nil), ck.FullDump(sbc, nil)); diff != "" {
 		return fmt.Errorf("final state at height %d differs (source vs syncing node): %s", top, diff)
+	}
+	// every block the syncing node stores is the source's block, witness included (the hash does not cover it)
+	for i := uint32(1); i <= top; i++ {
+		sb, err := sbc.GetBlock(sbc.GetHeaderHash(i))
+		if err != nil {
+			continue // below the state sync window
+		}
+		ab, err := abc.GetBlock(abc.GetHeaderHash(i))
+		if err != nil {
+			return fmt.Errorf("source has no block %d: %v", i, err)
+		}
+		if !bytes.Equal(sb.Script.InvocationScript, ab.Script.InvocationScript) || !bytes.Equal(sb.Script.VerificationScript, ab.Script.VerificationScript) {
+			return fmt.Errorf("block %d stored by the syncing node carries a witness (%x) that differs from the one of the source's block (%x)", i, sb.Script.InvocationScript, ab.Script.InvocationScript)
+		}
 	}
 	for h, what := range w.forged {
 		if sbc.HasBlock(h) {
